@@ -29,7 +29,7 @@ ASSUMPTIONS = [
     "IEEE rounding within the stated tolerances",
 ]
 
-KINDS = ["geom", "canon", "cartan", "vinberg", "diag", "hyp"]
+KINDS = ["geom", "canon", "cartan", "vinberg", "diag", "hyp", "canondiag"]
 
 
 # ------------------------------------------------------------------------------------------------
@@ -79,7 +79,7 @@ def gen_case(rng, kinds=KINDS, ranks=(2, 3, 3, 4, 4, 5), finite=(2, 12)):
                 continue
         else:
             M = X.rand_matrix(rng, n, finite=finite)
-            if kind == "diag":
+            if kind in ("diag", "canondiag"):
                 p, neg, z, mn = X.signature(M)
                 if z or mn < 0.02:
                     continue
@@ -133,9 +133,14 @@ def build_rep(inp):
     elif kind == "hyp":
         rep = _with_recording(lambda: G.hyperbolic_rep())
         extra["WW"] = _REC.get("last")
+    elif kind == "canondiag":
+        rep = _with_recording(lambda: G.canonical_representation(diagonalize=True))
+        extra["WW"] = _REC.get("last")
     else:
         raise ValueError(kind)
-    gens = [np.asarray(rep.generators[g], dtype=float) for g in names]
+    # generators are looked up by the names the *input* prescribes (not by the library's own bookkeeping)
+    _, xnames = X.expected_matrix_and_names(inp["spec"])
+    gens = [np.asarray(rep.generators[g], dtype=float) for g in xnames]
     return G, names, rep, gens, extra
 
 
@@ -177,7 +182,8 @@ def lean_gens(inp, obs):
     else:
         if "W" not in obs:
             return ops
-        ops.append({"op": "c08.gens", "kind": "hyp", "W": X.mat_json(obs["W"]), "Winv": X.mat_json(obs["Winv"]), **base})
+        ops.append({"op": "c08.gens", "kind": "canonhyp" if kind == "canondiag" else "hyp", "W": X.mat_json(obs["W"]),
+                    "Winv": X.mat_json(obs["Winv"]), **base})
         J = _sig_form(Mx)
         ops.append({"op": "c08.resid", "gens": [X.mat_json(g) for g in obs["gens"]], "W": X.mat_json(obs["W"]),
                     "Winv": X.mat_json(obs["Winv"]), "J": [[Q.qs(x) for x in r] for r in J], **base})
@@ -281,7 +287,8 @@ def gen_rel(rng, n):
 
 def run_rel(inp):
     G, names, rep, gens, extra = build_rep(inp)
-    M = np.asarray(G.coxeter_matrix)
+    # the labels come from the *input* (diagram / matrix as given), the matrices by generator name
+    M = np.asarray(X.expected_matrix_and_names(inp["spec"])[0])
     n = len(names)
     inv = max(float(np.max(np.abs(g @ g - np.eye(n)))) for g in gens)
     braid, order, scale = 0.0, None, 1.0
@@ -332,7 +339,7 @@ def judge_rel(inp, obs, lr):
     if max(obs["braid"], ebr) > tol:
         return {"expected": "(s_i s_j)^m = 1 for every finite label m", "observed": {"numpy": obs["braid"], "exact": ebr},
                 "tags": {**tags, "relation": "braid"}}
-    if kind == "canon" and eord is not None and min(eord, obs["order"]) < 0.05:
+    if kind in ("canon", "canondiag") and eord is not None and min(eord, obs["order"]) < 0.05:
         return {"expected": "s_i s_j has order exactly m in the canonical representation",
                 "observed": {"min_k<m |P^k-1|": eord}, "tags": {**tags, "relation": "order"}}
     if any(abs(d + 1) > 1e-8 for d in obs["dets"]) or obs["rank1"] > 1e-8:
@@ -351,32 +358,54 @@ def gen_formdual(rng, n):
 
 def run_formdual(inp):
     G = X.build_group(inp["spec"])
-    names = list(G.ordered_gens)
-    B = np.asarray(G.bilinear_form(), dtype=float)
+    Mx, names = X.expected_matrix_and_names(inp["spec"])
+    n = len(names)
+    # the cosine form computed independently of the library: -cos(pi/m), -1 for every non-positive label
+    B = np.array([[-math.cos(math.pi / m) if m > 0 else -1.0 for m in row] for row in Mx])
+    Blib = np.asarray(G.bilinear_form(), dtype=float)
     geo, can = G.geometric_representation(), G.canonical_representation()
     form = dual = 0.0
-    sym = float(np.max(np.abs(B - B.T)))
-    diag = float(np.max(np.abs(np.diag(B) - 1)))
+    sym = float(np.max(np.abs(Blib - B)))
+    diag = float(np.max(np.abs(np.diag(Blib) - 1)))
     for w in inp["words"]:
         g = np.asarray(X.rep_word(geo, names, w), dtype=float)
         c = np.asarray(X.rep_word(can, names, w), dtype=float)
         s = 1 + float(np.max(np.abs(g))) ** 2
         form = max(form, float(np.max(np.abs(g.T @ B @ g - B))) / s)
         # canonical = dual:  c · gᵀ = 1
-        dual = max(dual, float(np.max(np.abs(c @ g.T - np.eye(len(names))))) / s)
-    return {"form": form, "dual": dual, "sym": sym, "diag": diag}
+        dual = max(dual, float(np.max(np.abs(c @ g.T - np.eye(n)))) / s)
+    out = {"form": form, "dual": dual, "sym": sym, "diag": diag, "ddual": 0.0, "dform": 0.0}
+    p, neg, z, mn = X.signature(Mx)
+    if z == 0 and mn >= 0.02:
+        # diagonalised variants: canonical(diagonalize=True) is the dual of geometric(diagonalize=True), which
+        # preserves diag(signs in increasing order)
+        gd, cd = G.geometric_representation(diagonalize=True), G.canonical_representation(diagonalize=True)
+        J = np.diag([-1.0] * neg + [1.0] * p)
+        for w in inp["words"]:
+            g = np.asarray(X.rep_word(gd, names, w), dtype=float)
+            c = np.asarray(X.rep_word(cd, names, w), dtype=float)
+            s = 1 + float(np.max(np.abs(g))) ** 2
+            out["dform"] = max(out["dform"], float(np.max(np.abs(g.T @ J @ g - J))) / s)
+            out["ddual"] = max(out["ddual"], float(np.max(np.abs(c @ g.T - np.eye(n)))) / s)
+    return out
 
 
 def judge_formdual(inp, obs, lr):
     if "exc" in obs:
         return {"expected": "representations", "observed": obs, "tags": {"exc": obs["exc"]}}
     if obs["sym"] > 1e-12 or obs["diag"] > 1e-12:
-        return {"expected": "symmetric cosine form with unit diagonal", "observed": obs, "tags": {"what": "form-shape"}}
+        return {"expected": "bilinear_form() = -cos(pi/m) (and -1 for every non-positive label), unit diagonal", "observed": obs,
+                "tags": {"what": "cosine-form"}}
     if obs["form"] > 1e-9:
         return {"expected": "g^T B g = B for the geometric representation", "observed": obs, "tags": {"what": "form"}}
     if obs["dual"] > 1e-9:
         return {"expected": "canonical_representation()[w] = inverse transpose of geometric_representation()[w]",
                 "observed": obs, "tags": {"what": "dual"}}
+    if obs["dform"] > 1e-8:
+        return {"expected": "geometric_representation(diagonalize=True) preserves diag(+-1)", "observed": obs, "tags": {"what": "diag-form"}}
+    if obs["ddual"] > 1e-8:
+        return {"expected": "canonical_representation(diagonalize=True)[w] = inverse transpose of geometric_representation(diagonalize=True)[w]",
+                "observed": obs, "tags": {"what": "diag-dual"}}
     return None
 
 
